@@ -507,11 +507,20 @@ func (cl *c40Client) run(f c40Flow) {
 		var wg sync.WaitGroup
 		var mu sync.Mutex
 		var problems []string
+		var subObs []c40Obs
 		for k := 0; k < 4; k++ {
 			wg.Add(1)
 			go func(k int) {
 				defer wg.Done()
 				sub := &c40Client{s: cl.s, gid: cl.gid*100 + k + 1}
+				defer func() {
+					mu.Lock()
+					for _, so := range sub.obs {
+						so.First = false
+						subObs = append(subObs, so)
+					}
+					mu.Unlock()
+				}()
 				if k == 2 {
 					if r3, o3 := sub.do(f, "DELETE", "/__session__", nil, map[string]string{"VGI-Session": tok}); !o3.HookFail && o3.Panic == "" && r3.Status != http.StatusNoContent && r3.Status != http.StatusOK {
 						mu.Lock()
@@ -536,6 +545,10 @@ func (cl *c40Client) run(f c40Flow) {
 		if len(problems) > 0 {
 			o.Problem = strings.Join(problems, "; ")
 		}
+		// the sub-requests' own observations (panics, wrong request ids, undecodable bodies) count too
+		mu.Lock()
+		cl.obs = append(cl.obs, subObs...)
+		mu.Unlock()
 	case "big":
 		size := 20000 + f.Pad
 		us := lib.UnaryScript{Outcome: "value", Size: size}
